@@ -16,6 +16,8 @@ for p in props['checks']:
         "level_note": p["note"],
         "technique": p["technique"],
     })
+for e in props["engines"]:
+    e["serves_properties"] = [c["property_id"] for c in checks if c["engine"] == e["name"]]
 m = {
     "version": 1,
     "setup_cmd": "./scripts/setup.sh",
